@@ -15,7 +15,7 @@ def main():
     demos = [p for p in glob.glob(os.path.join(mut, x + "_demo*")) if p.endswith((".c", ".sh"))]
     if not os.path.exists(patch) or not demos:
         print("missing patch or demo", patch, demos); return 2
-    demo = demos[0]
+    demo = sorted(demos, key=lambda p: (not p.endswith(".sh"), p))[0]
     extra = ""
     for pn in glob.glob(os.path.join(mut, x + "_notes.json")):
         try:
